@@ -18,9 +18,10 @@
    instance may sit at several positions (aliasing, e.g. the library's shared px.EmptyArray); the printer walks
    it with one recursion detector shared by all nested calls. On EVERY graph without cycles it writes exactly the
    tokens of the tree the graph stands for and never the `<recursive reference>` marker. *)
-From Coq Require Import ZArith NArith Bool List.
+From Coq Require Import ZArith NArith Bool List Permutation.
 From PcoreV Require Import Model.Base Model.Ty Model.QuoteLex Model.TypePrint Model.TokenParse Model.ValuePrint
-  Proofs.QuoteLexUtf8 Proofs.QuoteLexProofs Proofs.TypePrintProofs Proofs.ValuePrintProofs.
+  Model.ObjectPrint Proofs.QuoteLexUtf8 Proofs.QuoteLexProofs Proofs.TypePrintProofs Proofs.ValuePrintProofs
+  Proofs.ObjectPrintProofs.
 Import ListNotations.
 Open Scope N_scope.
 
@@ -245,3 +246,75 @@ Example C05_cycle_prints_marker :
   acyclic [NArr [RNode 0]] = false /\
   print_value [NArr [RNode 0]] (RNode 0) = VOk ([PT KLBracket; PRec; PT KRBracket], []).
 Proof. split; vm_compute; reflexivity. Qed.
+
+(* Object types printed in full (model: Model/ObjectPrint.v): the attributes of an Object type against its init
+   hash. Types and values are abstract (T = types up to px.Equals, V = values up to Equals) and everything the code
+   asks about them is an oracle; the statements hold for EVERY oracle with the three laws of `oracle_ok` (px.Equals
+   on types identifies; undef is the only value equal to undef; an Optional type takes undef).
+   For EVERY list of attributes as InitFromHash leaves them (`wf_attr`, any kinds, any declared types - equal to,
+   wider or narrower than the type of the value -, with and without values, final or not) with distinct names,
+   initHash() succeeds and InitFromHash reads its result back as the same attributes, the constants written in the
+   short form `constants => {name => value}` moved behind the others (`reorder`, a permutation; the attributes of
+   an Object type are compared by name). *)
+Theorem C05_object_init_hash_round_trip :
+  forall (T V : Type) (O : oracle T V), oracle_ok O ->
+  forall l : list (attr T V), Forall (wf_attr O) l -> NoDup (map (@a_name T V) l) ->
+    exists h, init_hash O l = OOk h /\ init_from_hash O h = OOk (reorder O l).
+Proof. exact init_hash_round_trip. Qed.
+Print Assumptions C05_object_init_hash_round_trip.
+
+Theorem C05_object_reorder_is_permutation :
+  forall (T V : Type) (O : oracle T V) (l : list (attr T V)), Permutation l (reorder O l).
+Proof. exact reorder_perm. Qed.
+Print Assumptions C05_object_reorder_is_permutation.
+
+(* The attributes as read back print the same init hash again (the text of the second generation is the same). *)
+Theorem C05_object_prints_same :
+  forall (T V : Type) (O : oracle T V), oracle_ok O ->
+  forall l : list (attr T V), Forall (wf_attr O) l -> init_hash O (reorder O l) = init_hash O l.
+Proof. exact init_hash_reorder. Qed.
+Print Assumptions C05_object_prints_same.
+
+(* Non-vacuity. Types: 0 Integer, 1 Numeric, 2 Optional[Integer], 3 String; values: 0 undef, 1 the integer 3,
+   2 'x'. The attributes a: Integer constant 3 (short form), b: Numeric constant 3 (declared type WIDER than the
+   type of the value: full form), c: Optional[Integer] with the implied value undef (the type alone),
+   e: Optional[Integer] constant undef (keeps its value, fix 33f28f4), f: String, final, value 'x'. *)
+Definition ex_oracle (wide_is_equal : bool) : oracle N N :=
+  {| teq := fun a b => N.eqb a b || (wide_is_equal && N.eqb a 1 && N.eqb b 0);
+     gen_type := fun v => match v with 1%N => 0%N | 2%N => 3%N | _ => 4%N end;
+     is_optional := fun t => N.eqb t 2; optional_of := fun _ => 2%N;
+     is_undef := fun v => N.eqb v 0; is_default := fun _ => false;
+     is_instance := fun t v => match t, v with
+                                | 0%N, 1%N | 1%N, 1%N | 2%N, 1%N | 2%N, 0%N | 3%N, 2%N | 4%N, 0%N => true
+                                | _, _ => false end;
+     undef := 0%N |}.
+Definition ex_attrs : list (attr N N) :=
+  [ {| a_name := [97]%N; a_type := 0%N; a_kind := KConstant; a_value := Some 1%N; a_final := true; a_override := false |};
+    {| a_name := [98]%N; a_type := 1%N; a_kind := KConstant; a_value := Some 1%N; a_final := true; a_override := false |};
+    {| a_name := [99]%N; a_type := 2%N; a_kind := KDefault; a_value := Some 0%N; a_final := false; a_override := false |};
+    {| a_name := [101]%N; a_type := 2%N; a_kind := KConstant; a_value := Some 0%N; a_final := true; a_override := false |};
+    {| a_name := [102]%N; a_type := 3%N; a_kind := KDefault; a_value := Some 2%N; a_final := true; a_override := false |} ].
+
+Example C05_object_example :
+  init_hash (ex_oracle false) ex_attrs =
+    OOk {| h_attributes :=
+             [ ([98]%N, MHash {| s_type := 1%N; s_final := Some true; s_override := None; s_kind := Some KConstant; s_value := Some 1%N |});
+               ([99]%N, MBare 2%N);
+               ([101]%N, MHash {| s_type := 2%N; s_final := Some true; s_override := None; s_kind := Some KConstant; s_value := Some 0%N |});
+               ([102]%N, MHash {| s_type := 3%N; s_final := Some true; s_override := None; s_kind := None; s_value := Some 2%N |}) ];
+           h_constants := [ ([97]%N, 1%N) ] |} /\
+  (forall h, init_hash (ex_oracle false) ex_attrs = OOk h -> init_from_hash (ex_oracle false) h = OOk (reorder (ex_oracle false) ex_attrs)).
+Proof. split; [vm_compute; reflexivity|]. intros h H. vm_compute in H. injection H as <-. vm_compute. reflexivity. Qed.
+
+(* Why the test of the short form must be EQUALITY of the declared type with the type of the value: were a wider
+   declared type (Numeric for 3) taken for equal, b would be written as `constants => {b => 3}` and read back with the
+   type Integer - not the attribute it was. *)
+Example C05_object_wider_constant_needs_full_form :
+  let b t := {| a_name := [98]%N; a_type := t; a_kind := KConstant; a_value := Some 1%N; a_final := true; a_override := false |} in
+  exists h l, init_hash (ex_oracle true) ex_attrs = OOk h /\ init_from_hash (ex_oracle false) h = OOk l /\
+              In (b 0%N) l /\ ~ In (b 1%N) l.
+Proof.
+  cbv zeta. eexists. eexists. split; [vm_compute; reflexivity|]. split; [vm_compute; reflexivity|].
+  split; [cbn; tauto|].
+  intro H. cbn in H. repeat (destruct H as [H|H]; [discriminate H|]). exact H.
+Qed.
